@@ -278,16 +278,108 @@ def entry_points(chk, F, rid="R-ENTRY"):
                   "every truncated label ends) or is abandoned inside a scope-opening construct leaves the builder's "
                   "scope stack as deep as it found it: the entry point restores it, or the builder exposes no scope "
                   "that outlives the block")
-    # the two static entry points call utap_parse(); nothing restores the scope depth afterwards
     for fn in F.fns("parse_XTA") + F.fns("parseProperty"):
         if not any(c.get("name") == "utap_parse" for c in calls(fn["body"])):
             continue
-        restores = any(c.get("name") in ("restore_scope", "reset_frames", "popFrame", "unwind", "leave_scopes", "reset")
-                       or "frame" in (c.get("name") or "").lower() for c in calls(fn["body"]))
-        chk.ob(rid, "%s/%d|scope-depth" % (fn["name"], len(fn["params"])), restores,
+        how = entry_restores(F, fn, "frames")
+        chk.ob(rid, "%s/%d|scope-depth" % (fn["name"], len(fn["params"])), how is not None,
                "%s does not restore the builder's scope depth after utap_parse(): a quantifier cut short by the end of "
                "a label (`forall (k : int[0,1]) k + `) leaves its scope pushed, and every later block of the document "
-               "is parsed inside it" % fn["q"], "%s:%s" % (fn["file"], fn["line"]))
+               "is parsed inside it" % fn["q"], "%s:%s" % (fn["file"], fn["line"]),
+               sample="%s: scope depth noted before utap_parse() and restored after it (%s)" % (fn["name"], how))
+
+
+def stack_methods(F, member):
+    """(closers, depth getters) of the builder class that owns the stack `member` (`frames`, `fragments`): a method whose
+    body pops the stack inside a loop whose condition compares its size() with the method's parameter; a parameterless
+    method that returns its size()."""
+    closers, depth_of = set(), set()
+    for f in F.functions.values():
+        if f.get("body") is None or not (f.get("cls") or "").endswith("ExpressionBuilder"):
+            continue
+        ps = [p["name"] for p in f.get("params", [])]
+        for n in walk(f["body"]):
+            if n.get("k") in ("while", "for") and ps and \
+                    any(c.get("name") == "size" and member in short(c) for c in calls(n.get("c") or {})) and \
+                    any(x.get("k") == "ref" and x.get("name") in ps for x in walk(n.get("c") or {})) and \
+                    any((c.get("name") == "pop" and member in short(c)) or (member == "frames" and c.get("name") == "popFrame")
+                        for c in calls(n.get("body") or {})):
+                closers.add(f["name"])
+            if n.get("k") == "return" and n.get("e") is not None and not ps and \
+                    any(c.get("name") == "size" and member in short(c) for c in calls(n["e"])):
+                depth_of.add(f["name"])
+    return closers, depth_of
+
+
+def entry_restores(F, fn, member):
+    """How the parsing entry point `fn` brings the builder's stack `member` back to the depth it had before utap_parse():
+    'explicit calls' (getter before, closer after), 'destructor of a local' (a local declared before utap_parse() whose
+    constructor notes the depth and whose destructor hands it to the closer: runs on every exit), or None."""
+    closers, depth_of = stack_methods(F, member)
+    pc = [c for c in calls(fn["body"]) if c.get("name") == "utap_parse"]
+    if not pc:
+        return None
+    pl = pc[0].get("l") or 0
+    if any(c.get("name") in depth_of and (c.get("l") or 0) < pl for c in calls(fn["body"])) and \
+            any(c.get("name") in closers and c.get("args") and (c.get("l") or 0) > pl for c in calls(fn["body"])):
+        return "explicit calls"
+    for d in walk(fn["body"]):
+        if d.get("k") != "decl":
+            continue
+        for v in d.get("vars", []):
+            init = v.get("init")
+            if not (isinstance(init, dict) and init.get("k") == "construct" and (d.get("l") or init.get("l") or 0) < pl):
+                continue
+            cls = init.get("cls") or ""
+            ctors = [f for f in F.functions.values() if f.get("cls") == cls and f.get("name") == cls.split("::")[-1]]
+            dtors = [f for f in F.functions.values() if f.get("cls") == cls and (f.get("name") or "").startswith("~")]
+            notes = any(any(c.get("name") in depth_of for c in calls(f.get("body")) + calls(f.get("inits") or []))
+                        for f in ctors)
+            closes, flags = False, set()
+            from ..inline import sites_with_conditions
+            for f in dtors:
+                if f.get("body") is None:
+                    continue
+                for site, conds in sites_with_conditions(f["body"], lambda x: x.get("k") == "call" and x.get("name") in closers
+                                                         and x.get("args")):
+                    closes = True
+                    for c, t in conds:
+                        for x in walk(c):
+                            if x.get("k") == "member" and x.get("of") == cls:
+                                flags.add((x.get("name"), t))
+            if not (notes and closes):
+                continue
+            # a closer that runs only under a flag of the local (`if (failed) ..`): the flag must say `failed` unless the
+            # entry point has seen utap_parse() succeed - its default is the guarded value, and every assignment to it in
+            # the entry point depends on the result of utap_parse()
+            ok = True
+            rec = F.records.get(cls) or {}
+            results = set()
+            for n in walk(fn["body"]):
+                if n.get("k") == "decl":
+                    for v2 in n.get("vars", []):
+                        if v2.get("init") is not None and any(c.get("name") == "utap_parse" for c in calls(v2["init"])):
+                            results.add(v2.get("id"))
+                if n.get("k") == "if" and any(c.get("name") == "utap_parse" for c in calls(n["c"])):
+                    for x in walk(n["then"]):
+                        if x.get("k") == "bin" and x.get("op") == "=" and x["lhs"].get("k") == "ref":
+                            results.add(x["lhs"].get("id"))
+            for name, t in flags:
+                fld = [f for f in rec.get("fields", []) if f.get("name") == name]
+                dflt = None
+                if fld and fld[0].get("init") is not None:
+                    lits = [x.get("v") for x in walk(fld[0]["init"]) if x.get("k") == "bool"]
+                    dflt = lits[0] if lits else None
+                if dflt is not t:
+                    ok = False
+                for n in walk(fn["body"]):
+                    if n.get("k") == "bin" and n.get("op") == "=" and n["lhs"].get("k") == "member" and n["lhs"].get("name") == name:
+                        dep = any((x.get("k") == "ref" and x.get("id") in results) or
+                                  (x.get("k") == "call" and x.get("name") == "utap_parse") for x in walk(n["rhs"]))
+                        ok = ok and dep
+            if ok:
+                return "destructor of a local"
+    return None
 
 
 def no_symbol_cache(chk, F):
